@@ -154,6 +154,105 @@ example :
      | .ok m, .ok _ => acceptedB m r && incrementalOkB h r
      | _, _ => false) = true := by decide +kernel
 
+/-! ## branch labels are checked before anything is written (since the fix of F14) -/
+
+theorem labelsFree_spec : ∀ (ls taken : List String), labelsFree taken ls = true →
+    ls.Nodup ∧ ∀ l ∈ ls, l ∉ taken := by
+  intro ls
+  induction ls with
+  | nil => intro taken _; simp
+  | cons x ls ih =>
+    intro taken h
+    simp only [labelsFree, Bool.and_eq_true, Bool.not_eq_true', decide_eq_false_iff_not] at h
+    obtain ⟨hn, hrest⟩ := ih (x :: taken) h.2
+    refine ⟨List.nodup_cons.mpr ⟨fun hx => (hrest x hx) (by simp), hn⟩, ?_⟩
+    intro l hl
+    rcases List.mem_cons.mp hl with rfl | hl
+    · exact h.1
+    · exact fun ht => hrest l hl (by simp [ht])
+
+theorem not_mem_keysOf (m : LMap) (l : String) (h : l ∉ keysOf m) : hasKey m l = false := by
+  unfold keysOf at h
+  simp only [List.mem_append, List.mem_map, not_or, not_exists, not_and] at h
+  unfold hasKey
+  simp only [Bool.or_eq_false_iff, decide_eq_false_iff_not]
+  refine ⟨h.1, ?_⟩
+  rw [List.any_eq_false]
+  intro p hp he
+  exact h.2 p hp (by simpa using he)
+
+/-- **An accepted call's labels are fresh**: whatever `generate_revision` hands to the template
+    has the requested id and labels, and the labels are pairwise distinct, none of them a key of
+    the map (revision id or branch label) or the new id - for every map and all arguments. -/
+theorem generate_labels_fresh (m : LMap) (a : GenArgs) (r : Rev) (h : generateRevision m a = .ok r) :
+    r.id = a.revid ∧ r.labels = a.labels ∧ r.labels.Nodup ∧ ∀ l ∈ r.labels, hasKey m l = false ∧ l ≠ r.id := by
+  unfold generateRevision at h
+  split at h
+  · simp at h
+  · split at h
+    · rename_i hfree
+      simp only [Except.ok.injEq] at h
+      subst h
+      obtain ⟨hn, hf⟩ := labelsFree_spec _ _ hfree
+      refine ⟨rfl, rfl, hn, ?_⟩
+      intro l hl
+      have := hf l hl
+      simp only [List.mem_cons, not_or] at this
+      exact ⟨not_mem_keysOf m l this.2, this.1⟩
+    · simp at h
+
+/-- **A taken label is refused before the write**: if the other arguments resolve and some
+    requested label is a key of the map, equals the new id, or is repeated within the call, then
+    `generate_revision` raises `CommandError` (and, `stepCall_refused`, nothing changes). -/
+theorem generate_refuses_taken_label (m : LMap) (a : GenArgs) (x : List Id × List String) (hx : resolveArgs m a = .ok x)
+    (ht : (∃ l ∈ a.labels, hasKey m l = true ∨ l = a.revid) ∨ ¬ a.labels.Nodup) :
+    generateRevision m a = .error .commandError := by
+  cases hg : generateRevision m a with
+  | error e =>
+    unfold generateRevision at hg
+    rw [hx] at hg
+    simp only at hg
+    split at hg
+    · simp at hg
+    · simp only [Except.error.injEq] at hg; rw [hg]
+  | ok r =>
+    obtain ⟨hid, hl, hn, hf⟩ := generate_labels_fresh m a r hg
+    rcases ht with ⟨l, hlm, hk⟩ | hnd
+    · have := hf l (hl ▸ hlm)
+      rcases hk with hk | hk
+      · rw [this.1] at hk; simp at hk
+      · exact absurd (hk.trans hid.symm) this.2
+    · exact absurd (hl ▸ hn) hnd
+
+/-- the label step of `add_revision` (`_map_branch_labels`, the only place where a label was
+    refused before the fix) cannot raise for a revision `generate_revision` has let through: no
+    file is ever written and then refused because of its branch labels -/
+theorem accepted_labels_pass_add_revision (m : LMap) (a : GenArgs) (r : Rev) (h : generateRevision m a = .ok r) :
+    addLabelKeys (m.ids ++ [r.id]) r.id r.labels m.labelKeys = .ok (m.labelKeys ++ r.labels.map (fun l => (l, r.id))) := by
+  obtain ⟨_, _, hn, hf⟩ := generate_labels_fresh m a r h
+  apply Lemmas.Gen.addLabelKeys_intro _ _ _ _ hn
+  intro l hl
+  obtain ⟨hk, hne⟩ := hf l hl
+  obtain ⟨h1, h2⟩ := Lemmas.Gen.hasKey_false m l hk
+  exact ⟨by simp [h1, hne], h2⟩
+
+/-- **A refused call leaves the state unchanged**: files on disk and in-memory map -/
+theorem stepCall_refused (st : Hist × LMap) (a : GenArgs) (e : Err) (h : genCall st.2 a = .error e) :
+    stepCall st a = st := by
+  simp [stepCall, h]
+
+-- non-vacuity: a taken label is refused, a fresh one is accepted, on a loaded map
+example : (match load f5History with
+    | .ok m => (match generateRevision m { revid := "d", heads := ["head"], splice := false, labels := ["L"], deps := [] } with
+                | .error .commandError => true | _ => false) &&
+               (match generateRevision m { revid := "d", heads := ["head"], splice := false, labels := ["d"], deps := [] } with
+                | .error .commandError => true | _ => false) &&
+               (match generateRevision m { revid := "d", heads := ["head"], splice := false, labels := ["M", "M"], deps := [] } with
+                | .error .commandError => true | _ => false) &&
+               (match generateRevision m { revid := "d", heads := ["head"], splice := false, labels := ["M"], deps := ["L@head"] } with
+                | .ok r => r.down == ["a"] && r.deps == ["a"] && r.labels == ["M"] | _ => false)
+    | _ => false) = true := by decide +kernel
+
 /-! ## the docstring -/
 
 /-- FULL STATEMENT (false, F12): whatever the message, the docstring closes where the template closes it -/
